@@ -235,5 +235,10 @@ func printObls(obls []*Obligation, verbose bool) {
 			}
 		}
 		fmt.Printf("%-10s %-60s %-8s %6.2fs  %s\n", tag, o.Name, o.Solver, o.Secs, o.Src)
+		for _, s := range o.Sub {
+			if s.Status != "proved" && s.Status != "" {
+				fmt.Printf("    %-10s %-60s %-8s %6.2fs\n", s.Status, s.Name, s.Solver, s.Secs)
+			}
+		}
 	}
 }
